@@ -83,12 +83,23 @@ fn op_state(su: &Setup, id: &BytesN<32>) -> u32 {
     let exists: bool = invoke(e, &su.c, "operation_exists", args!(e, id.clone())).must("operation_exists");
     let ready: bool = invoke(e, &su.c, "is_operation_ready", args!(e, id.clone())).must("is_operation_ready");
     let done: bool = invoke(e, &su.c, "is_operation_done", args!(e, id.clone())).must("is_operation_done");
-    match (exists, ready, done) {
+    let st = match (exists, ready, done) {
         (false, _, _) => 0,
         (_, _, true) => 3,
         (_, true, _) => 2,
         _ => 1,
+    };
+    // the controller's other views of the same operation must tell the same story (a disagreement is
+    // raised as a refused query would be: typed panic, recorded as a violation by `main`)
+    let pending: bool = invoke(e, &su.c, "is_operation_pending", args!(e, id.clone())).must("is_operation_pending");
+    let ledger: u32 = invoke(e, &su.c, "get_operation_ledger", args!(e, id.clone())).must("get_operation_ledger");
+    let state: stellar_governance::timelock::OperationState = invoke(e, &su.c, "get_operation_state", args!(e, id.clone())).must("get_operation_state");
+    let state_name = format!("{state:?}");
+    let agree = pending == (st == 1 || st == 2) && (ledger == 0) == (st == 0) && state_name == ["Unset", "Waiting", "Ready", "Done"][st as usize];
+    if !agree {
+        Err::<(), Fail>(Fail::Host(format!("views disagree: exists {exists} ready {ready} done {done} pending {pending} ledger {ledger} state {state_name}"))).must("operation-views-agree");
     }
+    st
 }
 
 /// Entries for one attempted call `c.ep(args)`: the controller's own entry carrying `metas`, plus
